@@ -95,6 +95,7 @@ def gen_net(rng, opts=None):
     o["ecus"] = ecus
     frames = []
     ids = set()
+    ids2 = set()
     signo = 0
     for k in range(rng.randint(1, o.get("maxframes", 3))):
         ext = o.get("ext", True) and rng.random() < 0.35
@@ -102,8 +103,16 @@ def gen_net(rng, opts=None):
             arbid = rng.randrange(0, 1 << 29) if ext else rng.randrange(0, 1 << 11)
             if rng.random() < 0.06:
                 arbid = rng.choice([0, 0, (1 << 29) - 1 if ext else (1 << 11) - 1])     # boundary identifiers
+            if frames and o.get("same_number_both_formats") and rng.random() < 0.2 and frames[0]["id"] < 0x800 and frames[0]["ext"] == ext:
+                # the same identifier number as standard and as extended frame
+                arbid, ext = frames[0]["id"], not ext
+                if (arbid, ext) not in ids2:
+                    ids2.add((arbid, ext))
+                    break
+                continue
             if arbid not in ids:
                 ids.add(arbid)
+                ids2.add((arbid, ext))
                 break
         nbytes = rng.choice(o.get("lengths", [1, 2, 4, 8, 8, 8]))
         used = set()
